@@ -195,6 +195,17 @@ func (v *Validator) VerifyNewConfirms(block *types.Block, sigList []types.SignDa
 	validConfirms := make([]types.SignData, 0, len(sigList))
 	var lastErr error = nil
 
+	// A deputy is counted once, no matter how its signature is encoded. The miner and the signers of saved confirms have signed already
+	signedNodes := make(map[string]struct{}, len(block.Confirms)+len(sigList)+1)
+	if minerNodeID, err := block.SignerNodeID(); err == nil {
+		signedNodes[string(minerNodeID)] = struct{}{}
+	}
+	for _, oldSig := range block.Confirms {
+		if oldNodeID, err := oldSig.RecoverNodeID(hash); err == nil {
+			signedNodes[string(oldNodeID)] = struct{}{}
+		}
+	}
+
 	for _, sig := range sigList {
 		// 判断validConfirms中是否已经存在sig了
 		if IsSigExist(validConfirms, sig) {
@@ -215,10 +226,11 @@ func (v *Validator) VerifyNewConfirms(block *types.Block, sigList []types.SignDa
 			lastErr = ErrInvalidConfirmSigner
 			continue
 		}
-		if block.IsConfirmExist(sig) {
+		if _, signed := signedNodes[string(nodeID)]; signed || block.IsConfirmExist(sig) {
 			log.Warn("Duplicate confirm", "hash", hash.Hex(), "signer", common.ToHex(nodeID[:4]))
 			continue
 		}
+		signedNodes[string(nodeID)] = struct{}{}
 		validConfirms = append(validConfirms, sig)
 	}
 	return validConfirms, lastErr
